@@ -14,8 +14,9 @@ directions are *discovered* among the sin/cos atoms of S_n (theta or
 (theta, phi) parametrisation, u = cos theta parametrisation) and the claim is
 the polynomial identity  S_n(x) * I2d(q' n_n; x') = S_n(x') * I2d(q n_n; x)
 for two independent argument vectors x, x' (so c_n = S_n / I2d does not depend
-on x), together with |n_n|^2 = 1.  SUM_n c_n is measured on the compiled model
-(lim q->0 F2_1d / I2d) and must be 1 within 1e-6.  Models for which no
+on x), together with |n_n|^2 = 1.  SUM_n c_n = 1 and c_n >= 0 are then ground
+facts: c_n is evaluated over every node of the quadrature tables read from the
+generated source (node_weight_sum).  Models for which no
 direction candidate closes the identity are not under contract: they get a
 bounded numeric stand-in (orientation average of the compiled 2-D kernel by an
 independent Gauss-Legendre rule), are listed, and are never counted as proved.
@@ -51,8 +52,8 @@ def check(reg, tier):
     run_parallel(reg, _job, models)
     reg.assume("quadrature accuracy (distance of the model's own Gauss sum from the true spherical mean) is "
                "numerical analysis: not claimed")
-    reg.assume("node weights c_n >= 0: quadrature tables and Jacobians are non-negative on the node range "
-               "(tables checked numerically through the measured sum)")
+    reg.assume("node weights: SUM_n c_n = 1 and c_n >= 0 are evaluated in float64 over all nodes of the tables in the "
+               "generated source (machine arithmetic treated as mathematical, tolerance 1e-6)")
 
 
 def _job(sub, name):
@@ -69,6 +70,7 @@ def _job(sub, name):
                    sample={"obligation": oid, "discovered_direction": info.get("direction"),
                            "sum_levels": info.get("levels")})
         sub.extra.setdefault("under_contract", []).append(name)
+        _weights_obligations(sub, name, where, info.get("weight_sum"))
         if sub.tier == "thorough":
             rep, rinfo = replay_orientation_average(name)
             if rep:
@@ -95,26 +97,145 @@ def _job(sub, name):
             sub.extra.setdefault("not_under_contract", []).append({"model": name, "reason": info.get("reason")})
 
 
+def _weights_obligations(sub, name, where, wsum):
+    """With the identity proved, F2_1d(q) = SUM_n c_n I2d(q n_n) is an average iff the node weights are
+    non-negative and sum to one: both are ground facts about the quadrature tables of the generated source and the
+    Jacobian factors of the 1-D function, evaluated over all nodes (float64; 1e-6 allows for the quadrature error of
+    the constant function, which is ~1e-15 for the 76-point rule)."""
+    o_sum = "%s.node_weights_sum_to_one.%s" % (PROP, name)
+    o_pos = "%s.node_weights_are_non_negative.%s" % (PROP, name)
+    if wsum is None:
+        sub.undecided(o_sum, "the node weights could not be evaluated over the tables", function=where, engine="cvc")
+        return
+    total, winfo = wsum
+    backend = "ground evaluation over the quadrature tables (float64)"
+    for oid, ok, what in ((o_sum, abs(total - 1.0) <= 1e-6, "SUM_n c_n = %.15g" % total),
+                          (o_pos, winfo["min_weight"] >= -1e-12, "min_n c_n = %.3g" % winfo["min_weight"])):
+        if ok:
+            sub.passed(oid, function=where, engine="cvc", backend=backend,
+                       sample={"obligation": oid, "value": what, "nodes": winfo["nodes"]})
+            continue
+        rep, rinfo = replay_orientation_average(name)
+        if rep:
+            sub.fail(oid, {"node_weights": what, "nodes": winfo["nodes"], "replay": rinfo}, function=where,
+                     engine="cvc")
+        else:
+            sub.undecided(oid, "%s over %s nodes, but the compiled model agrees with an independent orientation "
+                               "average (%s)" % (what, winfo["nodes"], rinfo.get("summary")),
+                          function=where, engine="cvc")
+
+
+def _callees(tu, fname):
+    out = set()
+    for n in cvc._walk(tu.functions[fname]):
+        if n.get("kind") == "CallExpr":
+            for d in cvc._walk(n["inner"][0]):
+                ref = d.get("referencedDecl") or {}
+                if d.get("kind") == "DeclRefExpr" and ref.get("kind") == "FunctionDecl":
+                    out.add(ref.get("name"))
+    return out
+
+
+def _reach(tu, entry):
+    seen, stack = set(), [entry]
+    while stack:
+        f = stack.pop()
+        if f in seen or f not in tu.functions:
+            continue
+        seen.add(f)
+        stack.extend(_callees(tu, f))
+    return seen
+
+
+def _has_loop(tu, fname):
+    return any(n.get("kind") in ("ForStmt", "WhileStmt", "DoStmt") for n in cvc._walk(tu.functions[fname]))
+
+
+_LIBM = {"sin", "cos", "tan", "exp", "log", "sqrt", "pow", "fabs", "cbrt", "expm1", "log1p", "atan", "atan2", "asin",
+         "acos", "sinh", "cosh", "tanh", "erf", "erfc", "tgamma", "lgamma", "floor", "ceil", "trunc", "fmin", "fmax",
+         "fmod", "hypot", "log10", "exp2", "log2", "round", "copysign", "isnan", "isinf"}
+
+
+def _reads_only_arguments(tu, fname, lib):
+    """Frame condition of a helper taken by its contract 'the result is a function of the arguments': the body names
+    only its parameters, its locals, const-qualified globals (quadrature tables) and functions with the same
+    property."""
+    fn = tu.functions[fname]
+    local = set()
+    for n in cvc._walk(fn):
+        if n.get("kind") in ("ParmVarDecl", "VarDecl"):
+            local.add(n.get("id"))
+    for n in cvc._walk(fn):
+        if n.get("kind") != "DeclRefExpr":
+            continue
+        ref = n.get("referencedDecl") or {}
+        if ref.get("kind") in ("ParmVarDecl", "EnumConstantDecl"):
+            continue
+        if ref.get("kind") == "VarDecl":
+            if ref.get("id") in local:
+                continue
+            qt = (ref.get("type") or {}).get("qualType", "")
+            if "const" not in qt.split():
+                return False
+        elif ref.get("kind") == "FunctionDecl":
+            g = ref.get("name")
+            if g in lib or g == fname or g.startswith("__tg_") or g.startswith("__builtin_") or g not in tu.functions \
+                    and g in _LIBM:
+                continue
+            if g not in tu.functions or not _reads_only_arguments(tu, g, lib):
+                return False
+        else:
+            return False
+    return True
+
+
+def shared_quadrature_helpers(tu, one_d, two_d, lib):
+    """Model-local functions with loops that both the 1-D and the 2-D function reach: the two callers are checked
+    against the helper's contract (a function of its arguments), not its body."""
+    r1, r2 = _reach(tu, one_d), _reach(tu, two_d)
+    out = []
+    for f in sorted((r1 & r2) - {one_d, two_d} - set(lib)):
+        if _has_loop(tu, f) and _reads_only_arguments(tu, f, lib):
+            out.append(f)
+    # helpers only called from inside another shared helper need no summary of their own
+    inner = set()
+    for f in out:
+        inner |= (_reach(tu, f) - {f})
+    return [f for f in out if f not in inner]
+
+
 def _prove(reg, name):
     me = ModelExec(name)
     tu = me.tu
     two_d = "Iqabc" if "Iqabc" in tu.functions else ("Iqac" if "Iqac" in tu.functions else None)
     if two_d is None:
         raise OutsideSubset("no Iqac/Iqabc")
-    for f in (two_d, "Fq" if (me.info.have_Fq and "Fq" in tu.functions) else "Iq"):
+    one_d = "Fq" if (me.info.have_Fq and "Fq" in tu.functions) else "Iq"
+    from contracts.modelfn import lib_functions
+    helpers = shared_quadrature_helpers(tu, one_d, two_d, lib_functions(tu))
+    me.extra_uninterpreted = set(helpers)
+    for f in (two_d, one_d):
         fn = tu.functions[f]
         reg.function_under_contract("generated[%s]:%s" % (name, f), "sasmodels/models/%s.c" % name,
                                     fn["loc"].get("presumedLine", 0), 0, tu.func_text(fn))
+    for f in helpers:
+        reg.assume("models/%s: helper %s (inner quadrature shared by the 1-D and the 2-D function) enters both callers "
+                   "through its contract 'the result is a function of the arguments'; frame checked on the AST "
+                   "(reads only parameters, locals, const tables), body not interpreted" % (name, f))
     F1, F2, defs = me.run_1d()
     nf = sigma.normal_form(F2, defs)
     chains = {}
+    chain_defs = []
     for ch, s in nf:
         k = tuple(d.index.sexpr() for d in ch)
         chains[k] = chains.get(k, z3.RealVal(0)) + s
+        chain_defs = ch
     if len(chains) != 1 or list(chains)[0] == ():
         raise OutsideSubset("1-D function is not a single (nested) sum: %s" % sorted(chains))
     key = list(chains)[0]
-    S = chains[key]
+    # the normal form names quotients by inverse constants; written back as divisions so that the
+    # substitution x -> x' below reaches the parameters inside them
+    S = polynf.expand_inverses(chains[key])
     # the 2-D function at a symbolic direction
     a, b, c = z3.Real("dir_a"), z3.Real("dir_b"), z3.Real("dir_c")
     if two_d == "Iqabc":
@@ -128,41 +249,369 @@ def _prove(reg, name):
         targs.append(s_.arg(0))
     # polar pairs (s, c) with s^2 + c^2 = 1: (sin t, cos t) atoms, and (sqrt(1-u^2), u) atoms
     polar = [(sin(t), cos(t), "t = %s" % _short(t)) for t in targs]
+    have = set()
     for A, u in _sqrt_pairs(S):
         polar.append((A, u, "u = %s" % _short(u)))
+        have.add(u.sexpr())
+    # u = cos(theta) parametrisation without a sin(theta) in the 1-D code (ellipsoids): every affine function of a
+    # Gauss node that occurs in the summand is offered as u, with sqrt(1 - u^2) as its partner
+    sqrt_ = uf("sqrt", 1)
+    angle_polys = set()
+    for t in targs:
+        try:
+            angle_polys.add(repr(sorted(polynf.to_poly(t, {}).t.items())))
+        except polynf.NotPolynomial:
+            pass
+    for u in _affine_node_terms(S):
+        try:
+            if repr(sorted(polynf.to_poly(u, {}).t.items())) in angle_polys:
+                continue            # the angle itself, not a cosine
+        except polynf.NotPolynomial:
+            continue
+        if u.sexpr() not in have:
+            polar.append((sqrt_(1 - u * u), u, "u = %s (no sin in the 1-D code)" % _short(u)))
+    # half angle: the 1-D code integrates over t = 2 phi (cos t = cos^2 phi - sin^2 phi, sin t = 2 sin phi cos phi)
+    half = []
+    for t in targs:
+        h = t / 2
+        half.append((t, sin(h), cos(h), "phi = (%s)/2" % _short(t)))
     cands = []
     if two_d == "Iqac":
         for s_, c_, d in polar:
-            cands.append(((s_, None, c_), "(s, c) with %s" % d))
-            cands.append(((c_, None, s_), "(c, s) with %s" % d))
+            cands.append(((s_, None, c_), "(s, c) with %s" % d, None))
+            cands.append(((c_, None, s_), "(c, s) with %s" % d, None))
     else:
         for (s1, c1, d1), (s2, c2, d2) in itertools.permutations(polar, 2):
             base = (s1 * c2, s1 * s2, c1)
             for perm in itertools.permutations(range(3)):
                 cands.append((tuple(base[i] for i in perm),
-                              "perm%s of (s1 c2, s1 s2, c1), %s, %s" % (perm, d1, d2)))
+                              "perm%s of (s1 c2, s1 s2, c1), %s, %s" % (perm, d1, d2), None))
+        for (s1, c1, d1) in polar:
+            for (t, sh, ch, d2) in half:
+                if any(t.sexpr() == x.sexpr() for x in (s1.arg(0),) if s1.decl().name() == "sin"):
+                    continue
+                base = (s1 * ch, s1 * sh, c1)
+                for perm in itertools.permutations(range(3)):
+                    cands.append((tuple(base[i] for i in perm),
+                                  "perm%s of (s1 c2, s1 s2, c1), %s, %s" % (perm, d1, d2), (t, sh, ch)))
     subs_x = [(me.q, z3.Real("q'"))] + [(v, z3.Real(v.decl().name() + "'")) for v in me.iq_args]
     Sp = z3.substitute(S, *subs_x)
     Ep = z3.substitute(E, *subs_x)
-    tried = 0
+    # sqrt(v^2 P) = v sqrt(P) is used for q and for the parameters whose lower limit is >= 0
+    nonneg = {"q", "q'"}
+    for par in me.info.parameters.iq_parameters:
+        if par.limits[0] >= 0:
+            nonneg |= {par.id, par.id + "'"}
+    tried = skipped = 0
+    names = [v.decl().name() for v in [me.q] + me.iq_args] + [v.decl().name() + "'" for v in [me.q] + me.iq_args] \
+        + ["i!sigma!%d" % i for i in range(1, 12)]
     import time as _t
     t_end = _t.process_time() + (180 if reg.tier == "thorough" else 60)
-    for (da, db, dc), desc in cands[:60]:
+    for (da, db, dc), desc, dbl in cands[:120]:
         if _t.process_time() > t_end:
             return False, {"reason": "time budget for the direction search exhausted after %d candidates" % tried}
         tried += 1
         sub = [(a, da), (c, dc)] + ([(b, db)] if db is not None else [])
         Ec, Ecp = z3.substitute(E, *sub), z3.substitute(Ep, *sub)
-        goal = S * Ecp == Sp * Ec
-        pairs = trig_pairs([S, Sp, Ec, Ecp])
+        Sc, Scp = S, Sp
+        if dbl is not None:
+            t, sh, ch = dbl
+            dsub = [(sin(t), 2 * sh * ch), (cos(t), ch * ch - sh * sh)]
+            Sc, Scp = z3.substitute(S, *dsub), z3.substitute(Sp, *dsub)
+        goal = Sc * Ecp == Scp * Ec
+        if _numerically_different(Sc * Ecp, Scp * Ec, names):
+            skipped += 1
+            continue
+        pairs = trig_pairs([Sc, Scp, Ec, Ecp])
         try:
-            st, wit = polynf.decide(goal, pairs)
+            st, wit = polynf.decide(goal, pairs, nonneg=nonneg)
         except polynf.NotPolynomial:
             continue
         if st == "unsat":
-            return True, {"direction": desc, "levels": len(key), "candidates_tried": tried}
+            wsum = None
+            try:
+                wsum = node_weight_sum(me, Sc, Ec, chain_defs)
+            except _NoEval:
+                pass
+            return True, {"weight_sum": wsum, "direction": desc, "levels": len(key), "candidates_tried": tried, "helpers_by_contract": helpers,
+                          "candidates_discarded_numerically": skipped}
     return False, {"reason": "no unit-direction candidate among %d closes the identity "
-                             "(independent formulations of the 1-D and 2-D functions)" % tried}
+                             "(independent formulations of the 1-D and 2-D functions)" % (tried + skipped)}
+
+
+class _NoEval(Exception):
+    pass
+
+
+def _numeric(term, env, memo):
+    """Floating-point value of a z3 real term: constants from env (default: a value derived from the name),
+    sqrt/sin/cos with their meaning, every other uninterpreted function replaced by a fixed smooth function of its
+    arguments.  Used only to discard direction candidates cheaply; nothing is concluded from it."""
+    import math
+    import zlib
+    k = term.get_id()
+    if k in memo:
+        return memo[k]
+    if z3.is_rational_value(term) or z3.is_int_value(term):
+        v = float(term.numerator_as_long()) / float(term.denominator_as_long()) if z3.is_rational_value(term) \
+            else float(term.as_long())
+    elif z3.is_app(term):
+        kind = term.decl().kind()
+        name = term.decl().name()
+        ch = [_numeric(x, env, memo) for x in term.children()] if kind != z3.Z3_OP_ITE else None
+        if kind == z3.Z3_OP_ADD:
+            v = sum(ch)
+        elif kind == z3.Z3_OP_SUB:
+            v = ch[0] - sum(ch[1:])
+        elif kind == z3.Z3_OP_UMINUS:
+            v = -ch[0]
+        elif kind == z3.Z3_OP_MUL:
+            v = 1.0
+            for x in ch:
+                v *= x
+        elif kind == z3.Z3_OP_DIV:
+            if ch[1] == 0:
+                raise _NoEval()
+            v = ch[0] / ch[1]
+        elif kind == z3.Z3_OP_POWER:
+            v = ch[0] ** ch[1]
+        elif kind == z3.Z3_OP_TO_REAL:
+            v = ch[0]
+        elif kind == z3.Z3_OP_UNINTERPRETED:
+            h = (zlib.crc32(name.encode()) % 1000) / 1000.0
+            if term.num_args() == 0:
+                v = env.get(name)
+                if v is None:
+                    v = 0.5 + h
+            elif name == "sqrt":
+                if ch[0] < 0:
+                    raise _NoEval()
+                v = math.sqrt(ch[0])
+            elif name == "sin":
+                v = math.sin(ch[0])
+            elif name == "cos":
+                v = math.cos(ch[0])
+            elif name.startswith("table!"):
+                # nodes in (-1, 1), weights positive: a fixed function of the index value
+                x = math.sin(12.9898 * ch[0] + 78.233 * h)
+                v = 0.9 * x if name.endswith("Z") else 0.2 + 0.5 * abs(x)
+            else:
+                v = math.sin(0.7 * h + sum((0.37 + 0.11 * i) * x for i, x in enumerate(ch))) + 1.3 + h
+        else:
+            raise _NoEval()
+    else:
+        raise _NoEval()
+    if isinstance(v, complex) or v != v or abs(v) > 1e200:
+        raise _NoEval()
+    memo[k] = v
+    return v
+
+
+def _numeric_np(term, env, tables, memo):
+    """numpy version of _numeric for the node weights c_n = S_n / I2d(q n_n): index constants are integer arrays,
+    table!X(i) is looked up in the quadrature tables read from the generated source, libm functions have their
+    meaning; model special functions (which cancel in c_n by the proved identity) are fixed smooth functions."""
+    import numpy as np
+    import zlib
+    k = term.get_id()
+    if k in memo:
+        return memo[k]
+    if z3.is_rational_value(term):
+        v = float(term.numerator_as_long()) / float(term.denominator_as_long())
+    elif z3.is_int_value(term):
+        v = float(term.as_long())
+    elif z3.is_true(term) or z3.is_false(term):
+        return z3.is_true(term)
+    elif z3.is_app(term):
+        kind = term.decl().kind()
+        name = term.decl().name()
+        ch = [_numeric_np(x, env, tables, memo) for x in term.children()]
+        cmp_ = {z3.Z3_OP_GE: np.greater_equal, z3.Z3_OP_LE: np.less_equal, z3.Z3_OP_GT: np.greater,
+                z3.Z3_OP_LT: np.less, z3.Z3_OP_EQ: np.equal}
+        if kind == z3.Z3_OP_ITE:
+            v = np.where(ch[0], ch[1], ch[2])
+        elif kind in cmp_:
+            memo[k] = cmp_[kind](ch[0], ch[1])
+            return memo[k]
+        elif kind == z3.Z3_OP_NOT:
+            memo[k] = np.logical_not(ch[0])
+            return memo[k]
+        elif kind in (z3.Z3_OP_AND, z3.Z3_OP_OR):
+            f = np.logical_and if kind == z3.Z3_OP_AND else np.logical_or
+            v = ch[0]
+            for x in ch[1:]:
+                v = f(v, x)
+            memo[k] = v
+            return v
+        elif kind == z3.Z3_OP_TO_INT:
+            v = np.floor(ch[0])
+        elif kind == z3.Z3_OP_ADD:
+            v = ch[0]
+            for x in ch[1:]:
+                v = v + x
+        elif kind == z3.Z3_OP_SUB:
+            v = ch[0]
+            for x in ch[1:]:
+                v = v - x
+        elif kind == z3.Z3_OP_UMINUS:
+            v = -ch[0]
+        elif kind == z3.Z3_OP_MUL:
+            v = ch[0]
+            for x in ch[1:]:
+                v = v * x
+        elif kind == z3.Z3_OP_DIV:
+            if np.any(np.asarray(ch[1]) == 0):
+                raise _NoEval()
+            v = ch[0] / ch[1]
+        elif kind == z3.Z3_OP_POWER:
+            v = ch[0] ** ch[1]
+        elif kind == z3.Z3_OP_TO_REAL:
+            v = ch[0]
+        elif kind == z3.Z3_OP_UNINTERPRETED:
+            h = (zlib.crc32(name.encode()) % 1000) / 1000.0
+            if term.num_args() == 0:
+                if name not in env:
+                    raise _NoEval()
+                v = env[name]
+            elif name.startswith("table!"):
+                tab = tables.get(name[len("table!"):])
+                if tab is None:
+                    raise _NoEval()
+                idx = np.asarray(ch[0]).astype(int)
+                if np.any(idx < 0) or np.any(idx >= len(tab)):
+                    raise _NoEval()
+                v = tab[idx]
+            elif name in _NP_FUNCS:
+                with np.errstate(all="ignore"):
+                    v = getattr(np, _NP_FUNCS[name])(*ch)
+            else:
+                tot = 0.7 * h
+                for i, x in enumerate(ch):
+                    tot = tot + (0.37 + 0.11 * i) * x
+                v = np.sin(tot) + 1.3 + h
+        else:
+            raise _NoEval()
+    else:
+        raise _NoEval()
+    if not np.all(np.isfinite(v)):
+        raise _NoEval()
+    memo[k] = v
+    return v
+
+
+_NP_FUNCS = {"sqrt": "sqrt", "sin": "sin", "cos": "cos", "tan": "tan", "exp": "exp", "log": "log", "fabs": "abs",
+             "cbrt": "cbrt", "atan": "arctan", "asin": "arcsin", "acos": "arccos", "pow": "power", "expm1": "expm1",
+             "log1p": "log1p", "sinh": "sinh", "cosh": "cosh", "tanh": "tanh", "atan2": "arctan2"}
+
+
+def quadrature_tables(me):
+    """name -> numpy array for every const table of more than 16 entries in the generated source."""
+    import numpy as np
+    from fractions import Fraction
+    out = {}
+    ex = me.new_ex()
+    st = cvc.State()
+    for name, d in me.tu.globals.items():
+        init = [x for x in d.get("inner", []) if x.get("kind") == "InitListExpr"]
+        if not init or len(init[0].get("inner", [])) <= 16:
+            continue
+        vals = []
+        try:
+            for x in init[0]["inner"]:
+                v = z3.simplify(ex.rvalue(x, st))
+                vals.append(float(Fraction(v.numerator_as_long(), v.denominator_as_long()))
+                            if z3.is_rational_value(v) else float(v.as_long()))
+        except Exception:
+            continue
+        out[name] = np.array(vals)
+    return out
+
+
+def node_weight_sum(me, Sc, Ec, chain):
+    """SUM over all node tuples of c_n = S_n / I2d(q n_n) (independent of q and of the parameters by the proved
+    identity, so evaluated at one generic argument vector)."""
+    import numpy as np
+    import random
+    tables = quadrature_tables(me)
+    # one generic, valid argument vector: the model's default parameter values (slightly detuned) and q = 0.05
+    # (the first of: defaults, nine detuned copies that evaluates - validity regions differ between models)
+    rng = random.Random(7)
+    last = None
+    for attempt in range(10):
+        env = {"q": 0.05}
+        for par in me.info.parameters.iq_parameters:
+            f = 1.0 if attempt == 0 else rng.uniform(0.9, 1.1)
+            env[par.id] = float(par.default) * f if par.default else (0.0 if attempt == 0 else rng.uniform(0.6, 1.4))
+        try:
+            return _node_weight_sum_at(me, Sc, Ec, chain, tables, env)
+        except _NoEval as exc:
+            last = exc
+    raise last
+
+
+def _node_weight_sum_at(me, Sc, Ec, chain, tables, env):
+    import numpy as np
+    shape = []
+    for d in chain:
+        lo, n = z3.simplify(d.bound[0]), z3.simplify(d.bound[1])
+        if not (z3.is_int_value(lo) and z3.is_int_value(n)):
+            raise _NoEval()
+        shape.append((d.index.decl().name(), lo.as_long(), n.as_long()))
+    grids = np.meshgrid(*[np.arange(lo, n) for _, lo, n in shape], indexing="ij")
+    for (nm, _, _), g in zip(shape, grids):
+        env[nm] = g
+    memo = {}
+    s = _numeric_np(Sc, env, tables, memo)
+    e = _numeric_np(Ec, env, tables, memo)
+    if np.any(np.asarray(e) == 0):
+        raise _NoEval()
+    c = np.broadcast_to(np.asarray(s / e, dtype=float), grids[0].shape)
+    return float(c.sum()), {"nodes": [n - lo for _, lo, n in shape], "min_weight": float(c.min()),
+                            "tables": sorted(t for t in tables)}
+
+
+def _numerically_different(lhs, rhs, names):
+    """True when lhs and rhs evaluate to clearly different numbers at two sample points (then the candidate cannot
+    be an identity); False when they agree or cannot be evaluated."""
+    import random
+    rng = random.Random(20240607)
+    for _ in range(2):
+        env = {n: rng.uniform(0.3, 1.7) for n in names}
+        try:
+            memo = {}
+            a, b = _numeric(lhs, env, memo), _numeric(rhs, env, memo)
+        except (_NoEval, OverflowError, ValueError, ZeroDivisionError):
+            return False
+        if abs(a - b) > 1e-7 * max(abs(a), abs(b), 1e-300):
+            return True
+    return False
+
+
+def _affine_node_terms(S):
+    """Subterms of S that are a non-constant affine function of one quadrature node table!...Z(i)."""
+    out, seen, stack = {}, set(), [S]
+    while stack:
+        e = stack.pop()
+        if e.get_id() in seen:
+            continue
+        seen.add(e.get_id())
+        if not z3.is_app(e):
+            continue
+        stack.extend(e.children())
+        if not z3.is_real(e) or e.decl().kind() not in (z3.Z3_OP_ADD, z3.Z3_OP_MUL, z3.Z3_OP_SUB, z3.Z3_OP_DIV):
+            continue
+        atoms = {}
+        try:
+            p = polynf.to_poly(e, atoms)
+        except polynf.NotPolynomial:
+            continue
+        vars_ = {v for m in p.t for v, _ in m}
+        if len(vars_) != 1 or any(sum(x for _, x in m) > 1 for m in p.t) or () not in p.t:
+            continue
+        (k, (i, t)), = [(k, it) for k, it in atoms.items() if it[0] in vars_]
+        if z3.is_app(t) and t.decl().name().startswith("table!") and t.decl().name().endswith("Z"):
+            out[repr(sorted((m, str(cf)) for m, cf in p.t.items())) + k] = e
+    return list(out.values())
 
 
 def _sqrt_pairs(S):
